@@ -200,6 +200,12 @@ fn unchecked_twins(a: &HV, b: &HV, bad: &mut Vec<String>) {
             if pa.score_strings_unchecked(&b.bh1, a.log) != pa.score_strings(&b.bh1, a.log) {
                 v.push(format!("score_strings_unchecked {} {}", a.text(), b.text()));
             }
+            // the documented contract allows every effective block size 0..=31 (31 = block hash 2 of the largest size)
+            for lg in [0u8, 3, 4, 25, 26, 27, 28, 29, 30, 31] {
+                if pa.score_strings_unchecked(&b.bh1, lg) != pa.score_strings(&b.bh1, lg) {
+                    v.push(format!("score_strings_unchecked(log_block_size={}) {} {}", lg, a.text(), b.text()));
+                }
+            }
             // constructors
             let c1 = FuzzyHash::new_from_internals_unchecked(3u32 << a.log, &a.bh1, &a.bh2);
             let c2 = FuzzyHash::new_from_internals_near_raw_unchecked(a.log, &a.bh1, &a.bh2);
